@@ -1,0 +1,35 @@
+//go:build verif
+
+// Contracts for the verification machinery in /verif (comment-only; compiled only with -tags verif).
+package enterprise
+
+// Block begin of the enterprise module: orders accepted in an earlier block are completed (minted and locked), then
+// the raised orders are tallied - so an order accepted by this block's tally is completed by the next block at the
+// earliest.  Under the module invariants and the stated state assumptions it cannot panic (C14), and it re-establishes
+// every invariant it relies on.
+//
+// State assumptions (listed in the evidence): block time within int64 seconds and not before any raise time; total
+// locked below 2^200 and order amounts below 2^128 base units; fewer than 2^62 decisions per order; the enterprise
+// module account may mint (app wiring, checked by the C02 frame obligations); purchasers of accepted orders are not
+// blocked (module) accounts and not the escrow account - such accounts have no keys and cannot have signed an order.
+//@ func BeginBlocker(ctx, k)
+//@   props C03 C14 C02
+//@   requires ENT_ALL(ent_store) && ENT_BOOKS_WF(ent_store) && BANK_OK(bank_bal) && ENT_LEDGER(ent_store, bank_bal, bytesval(modAddr("enterprise")))
+//@   requires bankCanMint("enterprise") && totalLockedAmt(ent_store) < P200
+//@   requires forall x uint64 :: {ent_store[kAccepted(x)]} acceptedHas(ent_store, x) ==> !bankBlocked(bytesval(addrOf(poGet(ent_store, x).Purchaser))) && bytesval(addrOf(poGet(ent_store, x).Purchaser)) != bytesval(modAddr("enterprise"))
+//@   requires 0 <= unixSecs(blockTime(ctx)) && unixSecs(blockTime(ctx)) < 2^63
+//@   requires entParams(ent_store).MinAccepts >= 1 && len(splitOn(entParams(ent_store).EntSigners, ",")) >= entParams(ent_store).MinAccepts
+//@   requires forall x uint64 :: {ent_store[kRaised(x)]} raisedHas(ent_store, x) ==> poGet(ent_store, x).RaiseTime <= unixSecs(blockTime(ctx)) && len(poGet(ent_store, x).Decisions) < 2^62
+//@   let s0 := old(ent_store)
+//@   let now := unixSecs(blockTime(ctx))
+//@   let lim := entParams(old(ent_store)).DecisionTimeLimit
+//@   let ma := entParams(old(ent_store)).MinAccepts
+//@   let ns := len(splitOn(entParams(old(ent_store)).EntSigners, ","))
+//@   modifies ent_store, bank_bal, bank_supply
+//@   nopanic
+//@   ensures @accepted_orders_completed forall x uint64 :: {ent_store[kPO(x)]} acceptedHas(s0, x) ==> completedFrom(s0, ent_store, x)
+//@   ensures @raised_orders_tallied forall x uint64 :: {ent_store[kPO(x)]} raisedHas(s0, x) ==> tallied(s0, ent_store, x, now, lim, ma, ns)
+//@   ensures @rejected_and_completed_orders_never_change forall x int :: {ent_store[kPO(x)]} !raisedHas(s0, x) && !acceptedHas(s0, x) ==> ent_store[kPO(x)] == s0[kPO(x)] && ent_store[kRaised(x)] == s0[kRaised(x)] && ent_store[kAccepted(x)] == s0[kAccepted(x)]
+//@   ensures @no_mint_without_accepted_order (forall x uint64 :: {s0[kAccepted(x)]} !acceptedHas(s0, x)) ==> bank_supply == old(bank_supply) && bank_bal == old(bank_bal)
+//@   ensures @other_denoms_untouched forall d string :: {bank_supply[d]} d != entDenom(s0) ==> bank_supply[d] == old(bank_supply)[d]
+//@   ensures @inv ENT_ALL(ent_store) && ENT_BOOKS_WF(ent_store) && BANK_OK(bank_bal) && ENT_LEDGER(ent_store, bank_bal, bytesval(modAddr("enterprise")))
